@@ -194,9 +194,43 @@ def row_multiset(df, with_index=True):
     if isinstance(df, pd.Series):
         df = df.to_frame("__v__")
     if with_index:
+        df = df.copy()
+        df.columns = [f"c{i}" for i in range(df.shape[1])]  # an index name may equal a column name (set_index(drop=False))
+        df.index = df.index.rename("__index__")
         df = df.reset_index()
     rows = {}
     for tup in df.itertuples(index=False, name=None):
         k = tuple("<NA>" if F._isna(v) else (repr(v) if not isinstance(v, (float, np.floating)) else repr(round(float(v), 9))) for v in tup)
         rows[k] = rows.get(k, 0) + 1
     return rows
+
+
+def check_dtypes(got, want, meta, what, sig):
+    """dtypes must equal pandas', except for the data dependent pandas upcast that happens when a partition-local
+    pandas call sees no rows (DESIGN 4.4 / 8.6): accepted only if dask's own ``_meta`` announces the computed dtype."""
+    if isinstance(want, pd.Series):
+        pairs = [(want.name, got.dtype, want.dtype, getattr(meta, "dtype", None))]
+    else:
+        pairs = [(c, got.dtypes.iloc[i], want.dtypes.iloc[i], meta.dtypes.iloc[i] if meta is not None and i < len(meta.dtypes) else None) for i, c in enumerate(want.columns)]
+    for c, g, w, m in pairs:
+        if g == w:
+            continue
+        if isinstance(g, pd.CategoricalDtype) and isinstance(w, pd.CategoricalDtype) and set(g.categories) == set(w.categories) and g.ordered == w.ordered:
+            continue  # category order is a label freedom
+        ensure(m is not None and g == m, f"{what}: column {c!r} has dtype {g}, pandas {w}, dask meta {m}", "dtype-mismatch", **sig)
+
+
+def same_rows(got, want, *, what, sig, with_index, ordered=False, meta=None, rtol=1e-9):
+    """Rows equal pandas as a multiset (or in order), values compared dtype-agnostically, dtypes by check_dtypes."""
+    if list(got.columns) != list(want.columns):
+        raise Violation(f"{what}: columns {list(got.columns)} != pandas {list(want.columns)}", "columns-mismatch", **sig)
+    if len(got) != len(want):
+        raise Violation(f"{what}: {len(got)} rows, pandas {len(want)}\n dask:\n{F._show(got)}\n pandas:\n{F._show(want)}", "row-count", **sig)
+    check_dtypes(got, want, meta, what, sig)
+    g, w = got, want
+    cats = [c for c in w.columns if isinstance(w[c].dtype, pd.CategoricalDtype) or isinstance(g[c].dtype, pd.CategoricalDtype)]
+    if cats:
+        g, w = g.astype({c: object for c in cats}), w.astype({c: object for c in cats})
+    if with_index:
+        ensure(g.index.name == w.index.name, f"{what}: index name {g.index.name!r} != {w.index.name!r}", "index-name", **sig)
+    F.assert_eq(g, w, what=what, check_index=with_index, check_order=ordered, check_dtype=False, check_categorical=False, rtol=rtol, sig=sig)
